@@ -101,7 +101,7 @@ func cmdStruct(args []string) {
 	b := hx.NewBatch(*work)
 	b.WriteGoMod()
 	var src strings.Builder
-	src.WriteString("package p\n\nimport \"" + b.Mod + "/q\"\n\nvar _ q.TQ\n\nfunc Fn(x int) int { return x }\n\ntype DS struct {\n\tA int\n\tB int\n}\ntype DT struct {\n\tA int\n\tB int\n}\ntype FPS struct{ V int }\ntype UN struct{ X int }\ntype US struct {\n\tA int\n\tN UN\n\tP *int\n\tL []int\n}\ntype UT struct {\n\tA  int\n\tN  UN\n\tP  *int\n\tL  []int\n\tLS []string\n}\n\nfunc ToS(v []int) []string {\n\tif v == nil {\n\t\treturn []string{\"nil\"}\n\t}\n\treturn []string{\"7\"}\n}\n\ntype Money struct{ V int }\ntype Price struct{ V int }\ntype Cost struct{ V int }\ntype DS2 struct {\n\tA int\n\tM Money\n\tN Money\n}\ntype DT2 struct {\n\tA int\n\tM Price\n\tN Cost\n}\n\nfunc NewT2() *DT2 { return &DT2{A: 100} }\n")
+	src.WriteString("package p\n\nimport \"" + b.Mod + "/q\"\n\nvar _ q.TQ\n\nfunc Fn(x int) int { return x }\n\ntype DS struct {\n\tA int\n\tB int\n}\ntype DT struct {\n\tA int\n\tB int\n}\ntype FPS struct{ V int }\ntype UN struct{ X int }\ntype UNI struct {\n\tX     int\n\tExtra interface{}\n}\ntype USI struct{ N UNI }\ntype UTI struct{ N UNI }\ntype US struct {\n\tA int\n\tN UN\n\tP *int\n\tL []int\n}\ntype UT struct {\n\tA  int\n\tN  UN\n\tP  *int\n\tL  []int\n\tLS []string\n}\n\nfunc ToS(v []int) []string {\n\tif v == nil {\n\t\treturn []string{\"nil\"}\n\t}\n\treturn []string{\"7\"}\n}\n\ntype Money struct{ V int }\ntype Price struct{ V int }\ntype Cost struct{ V int }\ntype DS2 struct {\n\tA int\n\tM Money\n\tN Money\n}\ntype DT2 struct {\n\tA int\n\tM Price\n\tN Cost\n}\n\nfunc NewT2() *DT2 { return &DT2{A: 100} }\n")
 	type drvCall struct {
 		Args []any `json:"args"`
 		Dump []int `json:"dump"`
@@ -291,6 +291,9 @@ func cmdStruct(args []string) {
 				ins = []any{ptrv(val), ptrv(zb), nilv()}
 			}
 			drvLines[i]["ins"] = ins
+		case "update-iface":
+			// an update method whose zero-value guard compares a struct that holds an interface (C18: no reflect)
+			fmt.Fprintf(&src, "\n// goverter:converter\n// goverter:skipCopySameType\n%stype C%d interface {\n\t// goverter:update target\n\t// goverter:update:ignoreZeroValueField:struct\n\tUpdate(source USI, target *UTI)\n}\n", head(i), i)
 		case "default-rebuild":
 			fmt.Fprintf(&src, "\n// goverter:converter\n%stype C%d interface {\n\t// goverter:default NewT2\n\tConv(source *DS2) *DT2\n}\n", head(i), i)
 			drvLines[i]["ins"] = []any{nilv()}
@@ -371,7 +374,7 @@ func cmdStruct(args []string) {
 		if o.Gen == "ok" {
 			b.WriteOutputs(i, o.Files)
 			m := "Conv"
-			if scens[i].Kind == "update" {
+			if scens[i].Kind == "update" || scens[i].Kind == "update-iface" {
 				m = "Update"
 			}
 			b.Reg[i] = fmt.Sprintf("reflect.ValueOf((&gen.C%dImpl{}).%s)", i, m)
@@ -410,6 +413,9 @@ func cmdStruct(args []string) {
 			nOK++
 		}
 		base := map[string]any{"id": i, "kind": s.Kind, "gen": o.Gen, "why": why, "compiles": !badc, "diag": firstLine(o.Why)}
+		if s.Kind != "update" && s.Kind != "default" {
+			base["imports"], base["decls"] = hx.DescribeFiles(o.Files, map[string]string{b.Mod + "/p": "user", b.Mod + "/q": "user-q"})
+		}
 		switch s.Kind {
 		case "field":
 			base["prog"] = s.Prog
@@ -439,6 +445,8 @@ func cmdStruct(args []string) {
 					base["full"] = litOf(r["out"].(map[string]any)["fs"].([]any)[0])
 				}
 			}
+			obs.Write(base)
+		case "update-iface":
 			obs.Write(base)
 		case "default-rebuild":
 			base["prog"] = s.Prog
@@ -482,6 +490,9 @@ func cmdStruct(args []string) {
 				obs.Write(base)
 				continue
 			}
+			// one generation record per update program for C18 (imports / declarations of the emitted file)
+			gi, gd := hx.DescribeFiles(o.Files, map[string]string{b.Mod + "/p": "user", b.Mod + "/q": "user-q"})
+			obs.Write(map[string]any{"id": i, "kind": "genfile", "gen": "ok", "why": "", "compiles": true, "imports": gi, "decls": gd})
 			for _, r := range byID[i] {
 				nExec++
 				j := int(r["j"].(float64))
